@@ -193,6 +193,10 @@ func (d *c03Dir) Rename(oldName path.Component, nd filesystem.Directory, newName
 	if !ok {
 		return os.ErrNotExist
 	}
+	if d.e.dirFail == 2 {
+		d.e.dirFail = 0
+		return status.Error(codes.Internal, "injected rename failure")
+	}
 	delete(d.e.w.files, oldName.String())
 	d.e.w.files[newName.String()] = data
 	return nil
@@ -201,7 +205,15 @@ func (d *c03Dir) Rename(oldName path.Component, nd filesystem.Directory, newName
 func (d *c03Dir) Sync() error { return nil }
 
 func (f *c03File) Close() error { return nil }
-func (f *c03File) Sync() error  { return nil }
+func (f *c03File) Sync() error {
+	f.d.e.mu.Lock()
+	defer f.d.e.mu.Unlock()
+	if f.d.e.dirFail == 3 {
+		f.d.e.dirFail = 0
+		return status.Error(codes.Internal, "injected fsync failure")
+	}
+	return nil
+}
 func (f *c03File) Write(p []byte) (int, error) {
 	f.d.e.mu.Lock()
 	defer f.d.e.mu.Unlock()
@@ -279,6 +291,7 @@ type c03Env struct {
 	found    []Sx
 	nPut     int
 	popCount int
+	dirFail  int64 // injected failure of the next directory operation of that kind
 }
 
 func (e *c03Env) log(x Sx) {
@@ -732,7 +745,13 @@ func (e *c03Env) settle() {
 
 // ---- primitive scheduler actions (each followed by settle) ----
 
-func (e *c03Env) releaseGate(kind int, ok bool) bool {
+// releaseGate lets the pending call of the given kind return.  mode 1 = nil,
+// 0 = error; for a state write through the directory-backed store, mode 2 =
+// the rename of state.new over state fails, 3 = fsync of state.new fails (the
+// real store then returns the error; state.new stays behind).
+func (e *c03Env) releaseGate(kind int, mode int64) bool {
+	ok := mode == 1
+	inner := kind == 1 && e.pss != nil && (mode == 2 || mode == 3)
 	e.mu.Lock()
 	var g *c03Gate
 	for i, x := range e.gates {
@@ -753,12 +772,21 @@ func (e *c03Env) releaseGate(kind int, ok bool) bool {
 	if g == nil {
 		return false
 	}
-	if ok {
+	switch {
+	case ok:
 		g.ch <- 0
-	} else {
+	case inner:
+		e.mu.Lock()
+		e.dirFail = mode
+		e.mu.Unlock()
+		g.ch <- 0
+	default:
 		g.ch <- 1
 	}
 	e.settle()
+	e.mu.Lock()
+	e.dirFail = 0
+	e.mu.Unlock()
 	return true
 }
 
@@ -829,7 +857,7 @@ func (e *c03Env) auto(untilExit bool) {
 		}
 		switch {
 		case ng > 0:
-			e.releaseGate(kind, true)
+			e.releaseGate(kind, 1)
 		case tm != nil:
 			if tm.deadline > now {
 				e.tick(tm.deadline - now)
@@ -982,7 +1010,7 @@ func (e *c03Env) do(i int, op Sx) {
 		e.mu.Lock()
 		e.hist = append(e.hist, L(A(30), AI(i), L(A(5))))
 		e.mu.Unlock()
-		if !e.releaseGate(op.Nth(0).Int()-7, op.Nth(1).Z != 0) {
+		if !e.releaseGate(op.Nth(0).Int()-7, op.Nth(1).Z) {
 			e.settle()
 		}
 		return
@@ -1353,7 +1381,11 @@ func (g *c03Gen) syncerOp(okp int) {
 	case 0, 1:
 		g.add(L(A(7), AB(g.r.Chance(okp))))
 	case 2, 3:
-		g.add(L(A(8), AB(g.r.Chance(okp))))
+		if g.r.Chance(okp) {
+			g.add(L(A(8), A(1)))
+		} else {
+			g.add(L(A(8), AI(g.r.Pick([]int{0, 0, 2, 3}))))
+		}
 	case 4:
 		g.add(L(A(9), AI(g.r.Pick([]int{1, 3, 4, 7, 10}))))
 	default:
@@ -1413,7 +1445,11 @@ func (g *c03Gen) shutdown(okp int) {
 		case c < 64:
 			g.add(L(A(7), AB(g.r.Chance(okp))))
 		case c < 82:
-			g.add(L(A(8), AB(g.r.Chance(okp))))
+			if g.r.Chance(okp) {
+				g.add(L(A(8), A(1)))
+			} else {
+				g.add(L(A(8), AI(g.r.Pick([]int{0, 2, 3}))))
+			}
 		case c < 90:
 			g.add(L(A(9), AI(g.r.Pick([]int{3, 7, 10}))), L(A(10), AI(g.r.Intn(2))))
 		default:
